@@ -598,9 +598,14 @@ def obligations(tier: str) -> List[Ob]:
         for k in RANGE_KINDS:
             for n in (0, 2, 3):
                 k4_cases.append(((k,), n, False, False))
-        for ks in (('both', 'single'), ('single', 'both'), ('lower', 'upper')):
+        # every ordered pair of range forms (round 4 of the seeded changes: C13-r4m2 needs `X LOWER:` with X ending at LOWER-1;
+        # until then only 4 of the 16 pairs were in the quick tier)
+        for ks in itertools.product(RANGE_KINDS, repeat=2):
+            k4_cases.append((ks, 2 if ks == ('both', 'both') else 3, False, True))
+            if 'both' not in ks:
+                k4_cases.append((ks, 4, False, True))
+        for ks in (('single', 'single', 'lower'), ('upper', 'single', 'lower'), ('single', 'single', 'single')):
             k4_cases.append((ks, 3, False, True))
-        k4_cases.append((('both', 'both'), 2, False, True))
     else:
         for k in RANGE_KINDS:
             for n in (0, 1, 2, 3, 4, 5):
